@@ -241,3 +241,38 @@ def ghf_as_doubled(plain_ham, C, Wa, Wb):
     Wso = np.block([[Wa, np.zeros((norb, Wb.shape[1]))], [np.zeros((norb, Wa.shape[1])), Wb]])
     e = np.zeros((2 * norb, 0))
     return sd_line_uhf(so, np.asarray(C), e, Wso, e)
+
+
+def column_replacement_estimators(ovl, plain, Wa, Wb):
+    """The right-hand sides of `auto_energy_is_mixed_estimator` / `auto_force_bias_is_mixed_expectation`
+    (Props/C02.lean, C03.lean: `specEnergy2`, `ob2`, `tb2`) evaluated with the CLASS'S OWN overlap `ovl(Wa, Wb)` on walkers
+    with replaced columns - no Fock space, no Green's functions.  Returns (energy, force_bias[g])."""
+    Wa, Wb = np.asarray(Wa), np.asarray(Wb)
+    m = Wa.shape[0]
+    ha, hb = np.asarray(plain["h1"][0]), np.asarray(plain["h1"][1])
+    chol = np.asarray(plain["chol"]).reshape(-1, m, m)
+
+    def repl(W, O, j):
+        W2 = W.copy()
+        W2[:, j] = (O @ W)[:, j]
+        return W2
+
+    def repl2(W, O, j, l):
+        W2 = repl(W, O, j)
+        W2[:, l] = (O @ W)[:, l]
+        return W2
+    G0 = ovl(Wa, Wb)
+    ka, kb = Wa.shape[1], Wb.shape[1]
+    ob = sum(ovl(repl(Wa, ha, j), Wb) for j in range(ka)) + sum(ovl(Wa, repl(Wb, hb, j)) for j in range(kb))
+    fb, tb = [], 0.0
+    for L in chol:
+        ra = [repl(Wa, L, j) for j in range(ka)]
+        rb = [repl(Wb, L, l) for l in range(kb)]
+        oa = [ovl(x, Wb) for x in ra]
+        obb = [ovl(Wa, x) for x in rb]
+        fb.append((sum(oa) + sum(obb)) / G0)
+        t = sum(ovl(repl2(Wa, L, j, l), Wb) for j in range(ka) for l in range(ka) if l != j)
+        t += sum(ovl(Wa, repl2(Wb, L, j, l)) for j in range(kb) for l in range(kb) if l != j)
+        t += 2 * sum(ovl(x, y) for x in ra for y in rb)
+        tb += t
+    return plain["h0"] + ob / G0 + tb / G0 / 2, np.array(fb)
